@@ -16,6 +16,7 @@ ASSUMPTIONS = ["progress hypothesis of loop_terminates (each successful fix decr
 def run(ctx):
     cases = c11.gen_fix_cases(ctx, "c12", 70 if ctx.quick else 1000)
     cases += c11.grid_cases(len(cases))
+    cases += c11.bulk_cases(len(cases))
     impl = ctx.impl(cases, timeout=3000, procs=12)
     for c in cases:
         r = impl[c["id"]]
